@@ -190,6 +190,40 @@ def all_cells(ops, v="v"):
     return out
 
 
+# literals per operand class (Byte has none: `(7 als Byte)` is a cast); "-1" is a negated literal and only used
+# behind the operator
+LITERALS = {"Z": ["0", "1", "2", "-1"], "K": ["0,0", "2,0"], "W": ["wahr", "falsch"], "C": ["'a'"], "T": ['"a"']}
+
+
+def literal_variants(cell, full):
+    """[(operand description per position, expression text)]: the cell's expression with operand positions replaced
+    by bare (unparenthesised) literals — every single position x every literal; with `full` every combination"""
+    kind, op, tys, text = cell
+    spans = [m.span() for m in re.finditer(r"\(v[A-Z]{1,2}\)", text)]
+    classes = [text[a + 2:b - 1] for a, b in spans]
+    choices = []
+    for pos, k in enumerate(classes):
+        lits = [l for l in LITERALS.get(k, []) if not (l.startswith("-") and spans[pos][0] < 3)]
+        choices.append([None] + lits)
+    combos = []
+    if full:
+        import itertools
+        combos = [c for c in itertools.product(*choices) if any(x is not None for x in c)]
+    else:
+        for pos, ch in enumerate(choices):
+            for l in ch[1:]:
+                combos.append(tuple(l if q == pos else None for q in range(len(choices))))
+    out = []
+    for c in combos:
+        t, shift = text, 0
+        for (a, b), l in zip(spans, c):
+            if l is not None:
+                t = t[:a + shift] + l + t[b + shift:]
+                shift += len(l) - (b - a)
+        out.append((tuple("v" if l is None else l for l in c), t))
+    return out
+
+
 def cell_name(c):
     return "op=%s types=%s" % (c[1], ",".join(c[2]))
 
@@ -623,6 +657,8 @@ def main():
     ukey = {u: "cell %s type=%s ctx=%s" % (cell_name(cells[i]), admitted[i], x) for (u, i, x) in units}
     good, single = [], []
     skipped = 0
+    # cells on which checker table and typechecker differ are compiled in every context, alone when the model rejects them
+    mismatch_cells = {i for (i, _, _) in tc_mismatch}
     cell_of_unit = {u: (i, x) for (u, i, x) in units}
     for (u, i, x) in units:
         acc = cres.get(u, (False, None))[0]
@@ -636,7 +672,7 @@ def main():
             ck.broken_obligation("frontend accepts %s but the model's ctx_admits rejects it" % ukey[u], stmt[u])
         if p in (None, "ok"):
             # quick tier: the initialiser contexts for every cell, the others sampled
-            if quick and x not in ("VI", "IN") and ck.rng.random() >= 0.2:
+            if quick and i not in mismatch_cells and x not in ("VI", "IN") and ck.rng.random() >= 0.2:
                 skipped += 1
                 continue
             good.append(u)
@@ -651,7 +687,9 @@ def main():
         kept = []
         for i in sorted(by_cell):
             us = by_cell[i]
-            if pred.get(i, {}).get("cell_ok", True):
+            if i in mismatch_cells:
+                kept += us
+            elif pred.get(i, {}).get("cell_ok", True):
                 if ck.rng.random() < 0.08:
                     kept += us
             else:
@@ -738,6 +776,43 @@ def main():
         disagreements += tdis
         temp_units = len(treal)
         be.programs += tbe.programs
+    # ---- 3c. literal operands: each operand position a variable or a literal (judged directly) --------
+    # constants take other paths in the code generator (literal fast paths; the textual IR prints the type of a
+    # constant operand only with the first operand), so these programs are not compared with the tables
+    lit_variants = []
+    for i in sorted(want_ctx):
+        for combo, text in literal_variants(cells[i], full=not quick):
+            lit_variants.append((len(lit_variants), i, combo, text))
+    lres, problems = frontend_batch(cx, b, [(n, ctx_stmt("VI", "V", text, n)) for (n, i, combo, text) in lit_variants])
+    if problems:
+        ck.broken_obligation("cellx could not process %d frontend batches of the literal leg: %s" % (len(problems), str(problems[0][1])[:400]), "")
+    ck.count(len(lit_variants))
+    lunits = []
+    for (n, i, combo, text) in lit_variants:
+        acc, ty = lres.get(n, (False, None))
+        if not acc or ty not in TYPEINFO:
+            continue
+        for x in (("IN", "AR") if quick else ("IN", "AR", "VI", "RT")):
+            if quick and x == "AR" and ck.rng.random() >= 0.25:
+                continue
+            u = len(lunits)
+            lunits.append((u, n, x, ctx_stmt(x, ty, text, u), "cell %s operands=%s type=%s ctx=%s" % (cell_name(cells[i]), "|".join(combo), ty, x)))
+    lcres, _ = frontend_batch(cx, b, [(u, st) for (u, n, x, st, k) in lunits])
+    lgood = [u for (u, n, x, st, k) in lunits if lcres.get(u, (False, None))[0]]
+    ck.count(len(lunits))
+    ck.rng.shuffle(lgood)
+    LB = 60
+    lbad = {}
+    for r in vlib.pmap(lambda bt: be.isolate([(u, lunits[u][3]) for u in bt]), [lgood[k:k + LB] for k in range(0, len(lgood), LB)]):
+        lbad.update(r)
+    for u in lgood:
+        ck.nontrivial(lunits[u][4])
+    for u, (v, out) in sorted(lbad.items()):
+        if v == "frontend-reject":
+            ck.broken_obligation("kddp reports a frontend error for %s which parser.Parse (cellx) accepted" % lunits[u][4], out[-600:])
+            continue
+        n_viol += 1
+        report("%s verdict=%s" % (lunits[u][4], v), v, out, lunits[u][3], dict(operands="literals where the key names one", context=lunits[u][2]))
     # ---- 4. statement-level operand positions (direct judgement) -----------------------------------
     ex = extra_cells()
     eres, problems = frontend_batch(cx, b, [(j, t) for j, (k, t) in enumerate(ex)])
@@ -769,9 +844,9 @@ def main():
     ck.cov.update(dict(
         exhaustive=True, cells=len(cells), admitted_cells=len(admitted), context_units=len(units), compiled_units=len(real), skipped_units_quick=skipped,
         predicted_bad_units=len(single), programs_compiled=be.programs, statement_cells=len(ex), statement_cells_admitted=len(eacc),
-        temporary_flavour_units=temp_units, failing_units=n_viol, model_disagreements=len(disagreements), checker_table_mismatches=len(tc_mismatch),
+        temporary_flavour_units=temp_units, literal_variants=len(lit_variants), literal_units_compiled=len(lgood), failing_units=n_viol, model_disagreements=len(disagreements), checker_table_mismatches=len(tc_mismatch),
         operators=dict(unary=un, binary=bi, ternary=te, cast=ca), type_classes=KEYS, contexts=CTX_ALL,
-        input_distribution="enumeration, no sampling in the frontend leg: every operator of operators.go x every tuple of %d operand classes (%d cells) through the real frontend; every admitted cell x every applicable value context (%s) through kddp+LLVM+gcc (quick tier: initialiser contexts VI/IN for every admitted cell, 20%% seeded sample of the other contexts of cells predicted fine, up to 3 contexts of every cell predicted bad and 8%% of the list-literal-of-lists units alone; thorough: everything, plus every cell again with call results as operands in 5 contexts); statement operand positions (repeat count, loop condition, list count/literal, indexed assignment, counting and range loops) x classes judged directly" % (len(KEYS), len(cells), ",".join(CTX_ALL)),
+        input_distribution="enumeration, no sampling in the frontend leg: every operator of operators.go x every tuple of %d operand classes (%d cells) through the real frontend; every admitted cell x every applicable value context (%s) through kddp+LLVM+gcc (quick tier: initialiser contexts VI/IN for every admitted cell, 20%% seeded sample of the other contexts of cells predicted fine, up to 3 contexts of every cell predicted bad and 8%% of the list-literal-of-lists units alone; thorough: everything, plus every cell again with call results as operands in 5 contexts); every admitted cell again with bare literals (Zahl 0 1 2 -1, Kommazahl 0,0 2,0, wahr falsch, 'a', \"a\") in each single operand position (thorough: every combination) in the initialiser and argument contexts (thorough: also VI, RT), judged directly; statement operand positions (repeat count, loop condition, list count/literal, indexed assignment, counting and range loops) x classes judged directly" % (len(KEYS), len(cells), ",".join(CTX_ALL)),
         rule="distinct = (operator, operand classes, context) triples resp. statement cells; non-trivial = admitted by the frontend, i.e. the code generator ran on it"))
     a = [i for i in sorted(admitted)][:3]
     for i in a:
